@@ -235,7 +235,7 @@ def grid_logm(conv, apertures_au, theta_arcsec, d_kpc):
     out = np.zeros((n_m, len(d_kpc), n_f), LD)
     for j, d in enumerate(d_kpc):
         for f in range(n_f):
-            a = float(theta_arcsec[f]) * float(d) * 1000.0
+            a = float(theta_arcsec[f]) * (float(d) * 1000.0)      # (radius in AU = arcsec x pc)
             if apertures_au is None or n_a == 1:
                 v = conv[:, 0, f]
             else:
